@@ -75,6 +75,9 @@ def payload(kind):
             _CACHE[kind] = C.mode1_2352(akai_payload())
         elif kind == "roland":
             _CACHE[kind] = roland_payload()
+        elif kind == "akai_cut":
+            # the image file ends inside the second sector of WIDE-R (sector 22 of chain 20, 22, 21): an incomplete copy
+            _CACHE[kind] = akai_payload()[:22 * S + 1000]
     return _CACHE[kind]
 
 
@@ -234,6 +237,9 @@ def configs(quick):
                     P(AB, ("read", 4096), ("seek", sizes[0]), ("read", sizes[1]))]})
     R0, R1, R2 = ("VOL", "PERF0", "FWD"), ("VOL", "PERF0", "REV"), ("VOL", "PERF1", "ELSE")
     CL = R.CLUSTER
+    out.append({"name": "akai_cut:wide-stereo", "kind": "akai_cut", "parts": [
+        {"path": ["A:", "VOL1", "WIDE-L"], "path2": ["A:", "VOL1", "WIDE-R"], "ops": [["next"]] * 7, "stepwise": True},
+        P(A1, ("read", 4096), ("read", S + 1))]})
     out.append({"name": "roland:big-blocks", "kind": "roland", "parts": [
         P(("VOL", "PERF0", "HALFA"), ("seek", 10), ("read", 30000), ("read", 8192)), P(("VOL", "PERF0", "CONT"), ("read", 20000), ("read", 4096)),
         P(("VOL", "PERF0", "REV"), ("read", 6000), ("read", 4096))]})
@@ -335,6 +341,29 @@ def _baseline_main(quick, name, idx):
                 outs.append(content[pos:pos + k])
                 pos += k
         sim = hashlib.sha1(b"".join(outs)).hexdigest()
+    if all(op[0] == "next" for op in parts[idx]["ops"]) and "path2" in parts[idx]:
+        # the stereo steps must deliver, channel by channel, what isolated sequential reads of the two samples deliver
+        # (a prefix of it: the export may stop early, e.g. at the end of an incomplete image)
+        def alone(path):
+            st = Ctx(cfg["kind"]).stream(tuple(path))
+            st.seek(0, 0)
+            out = b""
+            while True:
+                try:
+                    b = st.read(4096)
+                except Exception:   # noqa -- the image ends here
+                    break
+                if not b:
+                    break
+                out += b
+            return out
+        la, ra = alone(parts[idx]["path"]), alone(parts[idx]["path2"])
+        ctx2 = Ctx(cfg["kind"])
+        blocks = [ctx2.do(parts[idx], op) for op in parts[idx]["ops"]]      # (not from `got`: PCM may contain the joining byte)
+        pcm = b"".join(b for b in blocks if b != b"<stop>")
+        lch = b"".join(pcm[i:i + 2] for i in range(0, len(pcm) - 3, 4))
+        rch = b"".join(pcm[i + 2:i + 4] for i in range(0, len(pcm) - 3, 4))
+        sim = hashlib.sha1(got).hexdigest() if (la[:len(lch)] == lch and ra[:len(rch)] == rch) else "channel-not-a-prefix-of-the-sample-read-alone"
     print(hashlib.sha1(got).hexdigest() + " " + sim)
 
 
@@ -343,7 +372,7 @@ class Check(CheckBase):
     level = "model_checking"
     title = "Sample streams sharing one image file handle do not disturb one another"
     rule = ("per configuration (AKAI raw and inside MODE1/2352: two files of one partition, one fragmented, one file of a "
-            "second partition, an L/R pair through the transcoder, a three-sector pair with a contiguous left and a fragmented right half, lazy directory listings; Roland: forward + reverse-mode "
+            "second partition, an L/R pair through the transcoder (also on an image file that ends inside the right half), a three-sector pair with a contiguous left and a fragmented right half, lazy directory listings; Roland: forward + reverse-mode "
             "sample + listing of another performance, a shared sample with a leading-cluster offset, two samples living in one fragmented chain, two reverse-mode samples and a reverse-mode L/R pair; CDDA: three tracks): ALL interleavings of the participants' call programs "
             "(block reads of 1, 2, 4096, sector-1, sector+1 bytes and of 6146..30000 bytes over files of five sectors / four clusters, sector-aligned reads of a contiguous file that end "
             "exactly on a sector boundary, read-to-end requests, absolute seeks, ls of unrealised directories, transcoder "
@@ -387,7 +416,8 @@ class Check(CheckBase):
                 rep.case({"config": cfg["name"], "schedule": [i] * len(cfg["parts"][i]["ops"])}, ok=False, klass="block-size-dependent",
                          nontrivial=True, sig=cfg["kind"] + ":block-size-dependent",
                          detail={"participant": i, "path": cfg["parts"][i]["path"], "ops": cfg["parts"][i]["ops"],
-                                 "observed": "read alone, the program does not see the bytes that 4096-byte reads from the start deliver"})
+                                 "observed": "read alone, the program does not see the bytes that 4096-byte reads from the start deliver (stream programs) / "
+                                             "a channel of the stereo steps is not a prefix of its sample read alone (transcoder programs)"})
             return
         if iso is None or any(d is None for d in iso):
             rep.case({"config": cfg["name"], "schedule": None}, ok=False, klass="isolated-run-failed", nontrivial=True,
